@@ -25,7 +25,7 @@ EXPLANATION = (
     " (R10) declared raw sizes: the uncompressed_size a writer Block is built with derives from a len() that is not downstream of a codec encode call (genuine defect F35, repaired: the fqzcomp arm declared the compressed length)."
     " (R11) sentinel vs terminator: the marker written for an unnamed record is free of the terminator of the NUL-terminated name series and is the marker the reader maps back to None (genuine defect F38, repaired). (R12) the predicate that raises the file version to 3.1 names every CRAM 3.1 codec and is asked about every encoder slot of the map (genuine defect F39, repaired)."
     " (R13) the TLEN sign belongs to the leftmost segment: resolve_mates compares alignment starts before it assigns +TLEN / -TLEN (genuine defect F40, repaired)."
-    " (R14) declared lengths: itf8_size_of agrees with the number of bytes write_itf8 emits on every one of the 33 bit-length classes of an i32 (A11 bit-class interpreter over the MIR of both; classes using an unmodelled construct are not decided).")
+    " (R14) declared lengths: itf8_size_of agrees with the number of bytes write_itf8 emits on every one of the 33 bit-length classes of an i32 (A11 bit-class interpreter over the MIR of both; classes using an unmodelled construct are not decided). (R15) memo coherence: a loop-carried memo in noodles_cram updates its key only where the value was refreshed or found equal (0 memos today; round-7 seed).")
 ASSUMPTIONS = ["flate2 Crc/CrcReader/CrcWriter compute CRC32 of exactly the bytes passed through", "md5 crate",
                "function-stem pairing (read_x <-> write_x) reflects the symmetric structure of the two record codecs (floor-checked)"]
 NOT_DECIDED = ["record equality: feature/CIGAR/base reconstruction, mate resolution, every encoder option x codec",
@@ -256,6 +256,13 @@ def run(ctx):
 
     ctx.rule("C07.R14", "A11 bit-length classes: itf8_size_of (declared) == bytes emitted by write_itf8, class by class")
     _itf8_size_rule(ctx)
+
+    ctx.rule("C07.R15", "A10 memo coherence: a loop-carried memo in the CRAM reader / writer (`if cur != prev { value = lookup(cur) } .. prev = cur`) "
+                        "updates its key only on paths of the iteration that refreshed the value or took the equal edge; expected count today 0 "
+                        "(the slice reader looks the reference sequence up for every record), the round-7 seed is the positive example")
+    n15 = a10.memo_coherence_rule(ctx, "C07.R15", r"^<?noodles_cram::")
+    if not n15:
+        ctx.ok("C07.R15", "no loop-carried memo in noodles_cram", "0 (key, value, comparison) triples found")
 
     ctx.rule("C07.R7", "A7 span of a template: the reader recomputes TLEN of in-slice mates from min(start of both segments) and max(END of both "
                        "segments) — each alignment_end() result feeds the maximum")
